@@ -21,11 +21,76 @@ CLAIMED = {
             "Every layout operation is compared with a reference written from its contract over per-corner attribute tuples (exact by bit pattern, weld: first vertex of the rounding cell), every attribute transform with the stated per-vertex map plus 'indices, topology, materials and all other attributes bit-identical'; generator constructs non-identity indices, shared/duplicated/unreferenced vertices and mixed attribute arities. Sampling level.",
             "Trusted: the reference implementations in harness/c03. Filters/crop only on point topology; don't-care band around minArea; undefined normals not compared.",
             "DESIGN.md §4 C03"),
+    "C04": ("exploration",
+            "property-based testing (rapid): round trip write->read in three encodings, own header parser + size law, differential between encodings",
+            "Generated point clouds and triangle meshes (any index pattern, any subset of recognised and user-named attributes, 60 orders of magnitude) written by ply.Write / custom MeshWriters in ascii, LE and BE: the harness's own header parser checks that the header describes the body (byte/line/token counts, endianness named in the header text), ReadMesh must return the same topology, primitive count and per-corner values at the stored type's precision (float32 image exactly for binary, 1 float32 ulp for ascii text, 1/255 for 8-bit), nothing invented, and the three encodings must decode to the same mesh. Sampling level.",
+            "Trusted: the harness header parser. Point clouds carry identity indices (format has no point index list); uchar scalars excluded in ascii (known finding ascii-uchar-scalar-raw, pinned reproducer).",
+            "DESIGN.md §4 C04"),
+    "C05": ("exploration",
+            "property-based testing (rapid): write->read and read->write round trips against an independent strict OBJ parser; grammar-based text generator",
+            "Both directions: generated lists of 1..4 named meshes with independent attribute subsets and material-range partitions are written, parsed by the harness's own strict OBJ parser (index validity, groups, corner forms, usemtl placement) and read back (triangles in order, per-corner position/normal/uv at float32 precision, material per triangle); OBJ text from a grammar (v/vt/vn pools, g/usemtl in any legal arrangement, four corner forms, comments, CRLF) is loaded and re-saved and the face multiset must be unchanged. Sampling level.",
+            "Trusted: the harness OBJ parser. Domain: whitespace-free distinct names, >= 1 triangle per mesh, ranges partition the triangles, uniform corner form per group, absolute indices.",
+            "DESIGN.md §4 C05"),
+    "C06": ("exploration",
+            "property-based testing (rapid): generated scenes against an independent GLB/JSON/base64 reader applying the glTF 2.0 structural rules, then decoding and de-duplication checks",
+            "Generated scenes (0..5 models, shared/equal-by-value meshes and materials, one-field material variants incl. every texture and extension, TRS, GPU instances, lights, both containers, index-width boundary 65535/65536/65537) are written; an independent reader checks container/chunk lengths, every index reference, view/accessor ranges, alignment, min/max, index values, attribute counts, extension declarations, then decodes payloads (float32/integer image), node and instance transforms and checks that shared things are stored once and distinct things never share an entry. Known finding (misaligned views after odd u16 indices) matched by a precise predicate and counted. Sampling level.",
+            "Trusted: the harness glTF reader (written from the specification). Valid scenes only; colour factors compared at the writer's 3-decimal rounding.",
+            "DESIGN.md §4 C06"),
+    "C07": ("exploration",
+            "property-based testing (rapid): size law + independent 50-byte record parser, round trips mesh->bytes->mesh and bytes->Binary->bytes",
+            "Generated triangle meshes (any index pattern, +-normals, zero/degenerate triangles, 60 orders of magnitude) and raw well-formed STL byte strings: length == 84+50n, own record parser, positions bit-equal to the float32 image, facet normal = normalised mean / geometric normal (1e-6), Write(Read(bytes)) == bytes, WriteMesh(ReadMesh(bytes)) reproduces the records. Sampling level.",
+            "Trusted: the harness record parser; normals judged only when well-conditioned (stated band).",
+            "DESIGN.md §4 C07"),
+    "C08": ("exploration",
+            "property-based testing (rapid): independent reference ENCODER emits files from the specification's grammar; expected mesh computed from the description",
+            "An independent reference encoder (harness/internal/plyref) emits PLY files with any property order, alias spellings, unrecognised scalars, comment/obj_info lines, CRLF headers, uchar/int/uint counts, int/uint indices, triangles and quads, optional texcoord list before/after the index list, in ascii/LE/BE; the decoded mesh must equal the mesh the specification assigns (vertex i = record i, 8-bit /255, quad fan (0,1,2)(0,2,3), per-face uvs per corner, nothing invented). Sampling level.",
+            "Trusted: the reference encoder. One scalar type per group; uchar scalars excluded in ascii (known finding, pinned reproducer).",
+            "DESIGN.md §4 C08"),
+    "C09": ("exploration",
+            "property-based testing (rapid): generated unions of analytic shapes at block-boundary positions; closed-oriented-surface validity predicate + exact-SDF distance and reference-volume oracles",
+            "Generated unions of spheres/boxes/capsules placed at and around the canvas' 100^3 storage-block boundaries (0..3 axes straddled, negative coordinates), resolutions 0.4..100 (thorough 1000) cubes per unit, cutoffs in [-1 cell, 0]: every directed edge balanced, multiplicity one except within tau of a lattice corner (known finding: merge by rounding), no repeated vertex in a triangle, positive volume within area x cell of a voxel-counted reference, every vertex within one cell of the exact isosurface. Cases cost 0.3-2.5 s, so ~100 (quick) / ~2400 (thorough) cases. Sampling level.",
+            "Trusted: the exact SDFs and the voxel reference in harness/c09. Strength 1, cutoff <= 0.",
+            "DESIGN.md §4 C09"),
+    "C10": ("exploration",
+            "property-based testing (rapid) under the Go race detector, repeated under taskset CPU masks: visit-count / bit-identical-output / triangle-multiset differential against the sequential variants",
+            "Generated element counts (incl. fewer than workers, non-multiples), pool sizes 1..33, three topologies: every primitive/element visited exactly once with its own data, Modify*Parallel bit-identical to sequential; asymmetric marching fields inside one block or across boundaries: AddFieldParallel, AddFieldParallel2, MarchParallel give the sequential triangle multiset. The binary is race-instrumented; any race report while a case runs is a violation; campaigns run concurrently under taskset masks so NumCPU-sized pools vary. Schedules are sampled, not owned.",
+            "Trusted: the Go race detector; callbacks are race-free. Rare interleavings are only sampled.",
+            "DESIGN.md §4 C10"),
+    "C14": ("fault_enumeration",
+            "fault enumeration over generated files: EVERY cut position (every token boundary for ascii bodies) of each generated valid PLY/STL/SPZ/.splat/PTS file is decoded and classified",
+            "For each generated valid file (reference-encoded and writer-produced PLY in three encodings with faces/texcoords/quads, binary STL, gzip'd SPZ v1/v2 with arbitrary packed bytes, .splat, PTS with 3/4/7 columns) every cut position is decoded under a watchdog: outcome must be an error, the complete mesh (only trailing framing cut), the fully contained splats, or a value-equal subset; a runtime panic, fabricated/shifted value, extra element or non-termination is a violation. Exhaustive per file (~300 cuts/file, ~10^6 cuts quick); files are sampled.",
+            "Trusted: decode of the complete file as the reference; 10 s watchdog as 'terminates'. In-number cuts of ascii bodies are outside the quantifier.",
+            "DESIGN.md §4 C14"),
+    "C15": ("exploration",
+            "property-based testing (rapid): .splat and splat-PLY round trips with per-field quantisation bounds; SPZ reference encoder with exact dequantisation oracle; exhaustive half-float grid",
+            "Generated splat clouds (exact +-1/0 rotation components, clamp-boundary colours, saturated opacities, float32 extremes) through .splat write/read (count, order, bit-exact positions, scale/colour/opacity/rotation within one quantisation step, own 32-byte record parser) and SplatPly export (own PLY row parser + ReadMesh, float32 exact); SPZ streams from a harness reference encoder (v1/v2, fractional bits 0..30, SH 0..3, arbitrary bytes) must decode to exactly the documented dequantised values; all 65536 half-float patterns enumerated. Sampling level (+ one exhaustive grid).",
+            "Trusted: the SPZ reference encoder and dequantisation formulas in harness/c15. Identity-indexed clouds; SPZ alpha linear as the loader documents.",
+            "DESIGN.md §4 C15"),
+    "C16": ("exploration",
+            "property-based testing (rapid): differential against an exhaustive scan over the same element objects, with a don't-care band at decision boundaries",
+            "Generated point/segment/triangle sets (clustered, grid-aligned, coincident, single element), depths 0..6 and automatic, query points on/off vertices, radii, rays: ClosestPoint distance and index, containing-point / within-range / ray sets (band 1e-9*scale), traversal with shrinking max, bounding box; BVH vs HitList vs octree-of-hittables vs mesh hit (flag and distance). Sampling level.",
+            "Trusted: Element methods (only pruning is under test); band keeps 1-ulp box re-centring ties silent.",
+            "DESIGN.md §4 C16"),
     "C17": ("exploration",
             "property-based testing (rapid): generated operands vs loop-written reference formulas; exhaustive basis-matrix enumeration",
             "Generated-input search over vectors, axes, angles, quaternion products, direction pairs (incl. exactly/nearly (anti)parallel), 4x4 matrices, TRS triples and boxes against independent reference formulas (Rodrigues rotation, row-by-column product, elimination determinant, clamp); Add/Multiply are additionally decided exhaustively on all 256 basis-matrix pairs, which settles entry placement for (bi)linear maps. Sampling level: shows absence of violations on ~10^5 (quick) / ~10^6+ (thorough) generated cases, not a proof.",
             "Trusted: the reference formulas in harness/c17, float64 arithmetic, rapid. RotationTo is exercised on unit directions only (its documented domain).",
             "DESIGN.md §4 C17"),
+    "C18": ("exploration",
+            "property-based testing (rapid) + exhaustive small grids: closed-oriented-manifold validity predicate, closed-form inscribed-polyhedron volume, outward normals",
+            "All small parameter grids enumerated (rows 2..24 x columns 3..24, sides 3..64, every UV option subset) and larger counts/sizes sampled: after merging coincident positions every directed edge used once and matched, one component with Euler characteristic 2, positive volume equal (1e-9) to the closed form of the inscribed polyhedron derived from the parameters, strictly below and converging to the analytic volume (<1% from 32 counts), supplied normals outward on every incident face. Exhaustive on the grids, sampling above.",
+            "Trusted: the closed forms in harness/c18 (derived from the vertex construction). Only capped solids are judged.",
+            "DESIGN.md §4 C18"),
+    "C19": ("exploration",
+            "property-based testing (rapid): independent reference formulations (clamp, Minkowski sum via closest-point projection, golden-section min over the swept ball), constructed surface/cap/edge sample points",
+            "Generated shape parameters and point pairs constructed in every region (inside, surface, caps, edges, corners, axis, far): sign outside a 1e-9 band, zero on constructed surface points, 1-Lipschitz on pairs, exact distance for sphere/box/capsule/plane, set-operation sign laws for union/intersect/subtract (1..4 operands), Translate shift. Sampling level (4.8e5 quick / 1.4e7 thorough cases).",
+            "Trusted: the reference formulations in harness/c19. Rounded cone within its definitional precondition, capsule with start != end.",
+            "DESIGN.md §4 C19"),
+    "C20": ("exploration",
+            "property-based testing (rapid) with exact rational predicates (math/big behind a proven float filter); general position constructed with a margin",
+            "Generated point sets (uniform, clustered, near-collinear hulls, jittered grids, rings; scales 1e-3..1e4, offsets to 1e6, small y-extents) in constructed general position: vertex i = input i, one winding and non-zero area, pairwise exact non-overlap, no input point strictly inside a circumcircle, plus a non-vacuity condition (a Delaunay triangle whose circumdisk lies inside the hull must be returned). Sampling level.",
+            "Trusted: exact predicates in harness/c20 (self-tested against pure rationals). Hull completeness is not demanded.",
+            "DESIGN.md §4 C20"),
 }
 
 PENDING_REASON = "check not built yet in this session (planned: see DESIGN.md §4); not claimed until its harness package exists and is silent on the repaired tree"
